@@ -208,6 +208,9 @@ func (x *Explorer) runOne(fn *ssa.Function) {
 					}
 				}
 			case *abortPath:
+				if p.HangIn != "" {
+					x.hangViolation(ex, p)
+				}
 				x.Aborted[p.Kind]++
 				if _, ok := x.AbortSamples[p.Kind+":"+p.Reason]; !ok && len(x.AbortSamples) < 40 {
 					x.AbortSamples[p.Kind+":"+p.Reason] = x.describeInputs()
@@ -693,6 +696,27 @@ func (x *Explorer) deadlockViolation(ex *Exec, p *deadlockAbort) {
 	sig := regexp.MustCompile(`g\d+\[`).ReplaceAllString(p.Desc, "g[")
 	v := &Violation{Harness: x.Harness, Label: "deadlock", Where: "scheduler", Inputs: x.modelInputs(model), Path: x.Paths, Detail: p.Desc}
 	v.Signature = x.Harness + "|deadlock:" + sig
+	x.Violations = append(x.Violations, v)
+}
+
+// hangViolation: a loop of the code under test exceeded the unwinding bound on a
+// feasible path. Reported only if the native run of the model input does not finish.
+func (x *Explorer) hangViolation(ex *Exec, p *abortPath) {
+	sig := x.Harness + "|hang:" + p.HangIn
+	for _, v := range x.Violations {
+		if v.Signature == sig {
+			return // one witness per loop is enough (each native confirmation waits for a timeout)
+		}
+	}
+	r, model := x.Solver.Check(x.pc, x.allInputTerms())
+	if r != Sat {
+		return
+	}
+	if model == nil {
+		model = map[int]uint64{}
+	}
+	v := &Violation{Harness: x.Harness, Label: "hang", Where: p.HangIn, Inputs: x.modelInputs(model), Path: x.Paths, Detail: p.Reason}
+	v.Signature = sig
 	x.Violations = append(x.Violations, v)
 }
 
